@@ -373,7 +373,7 @@ func c09Occ(seq string, circular bool, pat string) []int {
 // cassette reverse-complemented) on one circular or linear part. A circular
 // part is stored from a random origin that does not fall inside a recognition
 // site, its skip or its overhang (fragment interiors and backbone are allowed).
-func c09Carrier(rng *rand.Rand, e c09Enzyme, frags []c09Frag, circular bool) (Part, bool) {
+func c09Carrier(rng *rand.Rand, e c09Enzyme, frags []c09Frag, flips []bool, circular bool) (Part, bool) {
 	rcSite := c09RC(e.site)
 	for try := 0; try < 50; try++ {
 		var sb strings.Builder
@@ -387,7 +387,7 @@ func c09Carrier(rng *rand.Rand, e c09Enzyme, frags []c09Frag, circular bool) (Pa
 				sb.WriteString(pad(0, 12))
 			}
 			cas := e.site + c09RandSeq(rng, e.skip) + f.Fo + f.Seq + f.Ro + c09RandSeq(rng, e.skip) + rcSite
-			if rng.Intn(2) == 0 {
+			if flips[i] {
 				cas = c09RC(cas)
 			}
 			at := sb.Len()
@@ -483,7 +483,7 @@ func TestVerifC09Child(t *testing.T) {
 		for {
 			time.Sleep(25 * time.Millisecond)
 			runtime.ReadMemStats(&ms)
-			if ms.Sys > limit*3/4 {
+			if ms.Sys > limit/4 {
 				fmt.Printf("C09-CHILD-MEMORY sys=%d goroutines=%d\n", ms.Sys, runtime.NumGoroutine())
 				os.Exit(3)
 			}
@@ -502,6 +502,26 @@ func TestVerifC09Child(t *testing.T) {
 	fmt.Println("C09-CHILD-RESULT " + string(b))
 }
 
+// c09CapWriter keeps the first max bytes written to it (a runaway child can
+// print a traceback of a million goroutines).
+type c09CapWriter struct {
+	mu  sync.Mutex
+	buf []byte
+	max int
+}
+
+func (w *c09CapWriter) Write(p []byte) (int, error) {
+	w.mu.Lock()
+	defer w.mu.Unlock()
+	if room := w.max - len(w.buf); room > 0 {
+		if room > len(p) {
+			room = len(p)
+		}
+		w.buf = append(w.buf, p[:room]...)
+	}
+	return len(p), nil
+}
+
 // c09RunChild re-executes the test binary for one case. status is "returned",
 // "deadline" (killed after d), or "died" (crash, memory limit).
 func c09RunChild(c c09ChildCase, d time.Duration) (status string, parts []Part, detail string) {
@@ -509,11 +529,15 @@ func c09RunChild(c c09ChildCase, d time.Duration) (status string, parts []Part, 
 	ctx, cancel := context.WithTimeout(context.Background(), d)
 	defer cancel()
 	cmd := exec.CommandContext(ctx, os.Args[0], "-test.run=^TestVerifC09Child$", "-test.count=1", "-test.timeout=60s")
-	cmd.Env = append(os.Environ(), c09ChildEnv+"="+string(spec))
+	cmd.Env = append(os.Environ(), c09ChildEnv+"="+string(spec), "GOTRACEBACK=none")
+	capped := &c09CapWriter{max: 1 << 20}
+	cmd.Stdout = capped
+	cmd.Stderr = capped
+	cmd.WaitDelay = time.Second
 	start := time.Now()
-	outB, err := cmd.CombinedOutput()
+	err := cmd.Run()
 	el := time.Since(start)
-	out := string(outB)
+	out := string(capped.buf)
 	for _, ln := range strings.Split(out, "\n") {
 		if i := strings.Index(ln, "C09-CHILD-RESULT "); i >= 0 {
 			var r c09ChildOut
@@ -534,6 +558,9 @@ func c09RunChild(c c09ChildCase, d time.Duration) (status string, parts []Part, 
 			tail = out[i:]
 			break
 		}
+	}
+	if i := strings.IndexByte(tail, '\n'); i >= 0 {
+		tail = tail[:i]
 	}
 	if len(tail) > 200 {
 		tail = tail[:200]
@@ -637,16 +664,22 @@ func TestVerifC09(t *testing.T) {
 			}
 			d := c09MakeDesign(rng, k, 3, maxRings, rng.Intn(3), []string{e.site, c09RC(e.site)})
 			// a fragment of fewer than 2 overhang lengths cannot be cut out; all have 8+ bases by construction
-			if c09SeedFreeCycle(d.pool) {
-				continue
+			// a cassette may sit on its carrier in either orientation; the fragment then
+			// comes off flipped, and the exclusion is applied to the fragments as cut
+			flips := make([]bool, len(d.pool))
+			asCut := make([]c09Frag, len(d.pool))
+			safe := false
+			for try := 0; try < 10 && !safe; try++ {
+				for j, f := range d.pool {
+					flips[j] = rng.Intn(2) == 0
+					asCut[j] = f
+					if flips[j] {
+						asCut[j] = c09Flip(f)
+					}
+				}
+				safe = !c09SeedFreeCycle(asCut)
 			}
-			// the orientation in which a fragment comes off its carrier is random, so
-			// the exclusion must hold for either orientation of every fragment
-			both := append([]c09Frag{}, d.pool...)
-			for _, f := range d.pool {
-				both = append(both, c09Flip(f))
-			}
-			if c09SeedFreeCycle(both) {
+			if !safe {
 				continue
 			}
 			want := c09Rings(d.pool)
@@ -657,7 +690,7 @@ func TestVerifC09(t *testing.T) {
 				if j+1 < len(d.pool) && rng.Intn(4) == 0 {
 					take = 2
 				}
-				p, ok := c09Carrier(rng, e, d.pool[j:j+take], rng.Intn(2) == 0)
+				p, ok := c09Carrier(rng, e, d.pool[j:j+take], flips[j:j+take], rng.Intn(2) == 0)
 				if !ok {
 					okBuild = false
 					break
@@ -839,12 +872,13 @@ func TestVerifC09(t *testing.T) {
 			}
 			cases = append(cases, tc)
 		}
-		for i := 0; i < 3; i++ { // controls: the child-process route itself must let a good pool through
+		for i, nc := 0, 0; nc < 3 && i < 300; i++ { // controls: the child-process route itself must let a good pool through
 			d := c09MakeDesign(rng, 2+rng.Intn(3), 2, 8, 1, nil)
 			if c09SeedFreeCycle(d.pool) {
 				continue
 			}
 			cases = append(cases, tcase{"control", d.pool, true, false})
+			nc++
 		}
 		type tres struct {
 			status, detail string
@@ -868,6 +902,15 @@ func TestVerifC09(t *testing.T) {
 		wg.Wait()
 		vEx := newVerifRun("C09", c09ClauseLigate, "pools of the termination clause, kinds (a)-(c) and controls, whenever the child process returned: compared with the ring enumerator as in the main run of this clause")
 		vEx.Sampled()
+		nCyclic, nCyclicBad := 0, 0
+		for i, tc := range cases {
+			if tc.cyclic {
+				nCyclic++
+				if results[i].status != "returned" {
+					nCyclicBad++
+				}
+			}
+		}
 		for i, tc := range cases {
 			r := results[i]
 			input := fmt.Sprintf("%s GOMAXPROCS=%d fragments(leading.interior.trailing)= %s", tc.kind, r.procs, c09PoolText(tc.pool))
@@ -883,7 +926,7 @@ func TestVerifC09(t *testing.T) {
 				if !tc.cyclic {
 					class = "no-cycle-excluding-seed"
 				}
-				vTerm.Fail(class, input, r.detail)
+				vTerm.Fail(class, input, fmt.Sprintf("%s (%d of the %d pools with such a cycle did not return)", r.detail, nCyclicBad, nCyclic))
 			}
 		}
 		vTerm.Done()
